@@ -274,6 +274,18 @@ def check(prop: str, tier: str) -> int:
             if all(n in vanished for n in names) and not broken and not any(cname in u for u in undecided):
                 undecided.append(f"{cname}: none of its {len(names)} baseline obligations was generated")
 
+    # the trusted library specifications (T-*) are exercised against the CPython that runs the repository's tests: a
+    # disagreement means the checker's own trusted base is wrong here (exit 3), never a property violation
+    conf = dict(ok=None, checked=0, failed=["not run"])
+    try:
+        cp = subprocess.run(["/venv/bin/python", os.path.join(ROOT, "harness", "trusted_conformance.py")], capture_output=True,
+                            text=True, timeout=120, cwd=ROOT)
+        conf = json.loads((cp.stdout.strip().splitlines() or ["{}"])[-1])
+    except Exception as e:  # noqa
+        conf = dict(ok=False, checked=0, failed=[f"conformance run failed: {e!r}"])
+    if not conf.get("ok"):
+        broken.append("trusted specification(s) disagree with this CPython: " + "; ".join(map(str, conf.get("failed", [])))[:400])
+
     # bounded stand-ins (never counted as proved): the property's native harness evaluates the statement
     # literally on the real code over an enumerated / sampled scenario space
     bounded = []
@@ -364,6 +376,8 @@ def check(prop: str, tier: str) -> int:
             undecided=undecided, refuted=[f for f, _ in violations],
             vanished_baseline_obligations=vanished[:20], known_findings_hit=unrepaired, known_finding_obligations_refuted=len(known_hits),
             bounded_parts=[{k: v for k, v in b.items() if k != "failure"} for b in bounded],
+            trusted_spec_conformance=dict(facts_checked_natively=conf.get("checked"), failed=conf.get("failed"),
+                                          script="harness/trusted_conformance.py"),
             exit_code=exit_code,
             explanation="obligations = verification conditions generated by pyvc from the current /repo source "
                         "(one per path and contract clause); discharged = answered unsat by an SMT solver",
